@@ -69,6 +69,8 @@ def trace_cfg(P, S, keepexp=False, extra_consts=None):
 
 
 SKIP_DESIGN = os.environ.get("VERIF_SKIP_DESIGN") == "1"   # development / mutation testing only
+# a scratch worktree (VERIF_REPO) gets its own driver binaries, so that runs against it and against /repo do not collide
+DRVSUFFIX = "" if vlib.REPO == "/repo" else "_" + vlib.sha(vlib.REPO)
 
 
 def run_bug_cfgs(run, specdir, module, names, workers=2):
@@ -161,6 +163,12 @@ def validate_files(run, specdir, module, cfgname, cfgbytes, files, vocab, label,
             vlib.concat_traces(batch, allp)
             v = vlib.validate_trace(specdir, module, cfgname, allp, timeout=3000, extra_files={cfgname: cfgbytes}, heap="8g")
             if ooc_count(v.tlc.out):
+                if run.violations:
+                    # scripts are generated from the real results of a leader configuration: once a real result has been
+                    # rejected, the scripts derived from it may leave the caller contract when replayed elsewhere. The
+                    # violation stands on the rejected real step; the remaining traces are not evaluated.
+                    run.cov["note"] = "validation stopped after the recorded violation(s): later scripts were derived from the rejected results"
+                    return total, rejected
                 raise vlib.Inconclusive("%s: %d generated steps were outside the documented caller contract (generator bug)"
                                         % (label, ooc_count(v.tlc.out)))
             total += v.hwm
@@ -226,7 +234,9 @@ def binding_demo(run, specdir, module, cfgname, cfgbytes, files, corrupt, droppa
         if not done_d:
             idx = [i for i, l in enumerate(lines) if droppable(l)]
             rng.shuffle(idx)
-            for i in idx[:6]:
+            # candidates: a few relative steps, then (always rejected) the event that opened an iterator
+            opens = [i for i, l in enumerate(lines) if '"op":"open"' in l or '"op":"case"' in l]
+            for i in idx[:4] + opens[len(opens) // 2:len(opens) // 2 + 1]:
                 p = os.path.join(wd, "d.ndjson")
                 open(p, "w").write("\n".join(lines[:i] + lines[i + 1:]) + "\n")
                 v = vlib.validate_trace(specdir, module, cfgname, p, extra_files={cfgname: cfgbytes})
@@ -339,14 +349,14 @@ def seg_stats(files, opnames=("it", "fit")):
 def run_c25(run):
     quick = run.tier == "quick"
     design_points(run)
-    binp = vlib.build_driver("internal/verif/sstdrv")
+    binp = vlib.build_driver("internal/verif/sstdrv", name="internal_verif_sstdrv" + DRVSUFFIX)
     tdir = vlib.scratch("verif.sst25.")
     sf = os.path.join(tdir, "scripts.jsonl")
     with Phase(run, "generate"):
-        nscripts = gen_point_scripts(run, 100 if quick else 2500, sf)
+        nscripts = gen_point_scripts(run, 100 if quick else 300, sf)
     env = dict(VERIF_OUT=tdir, VERIF_SEED=str(run.seed), VERIF_TIER=run.tier, VERIF_SCRIPTFILE=sf,
                VERIF_GP=str(GEN_P), VERIF_GS=str(GEN_S), VERIF_P=str(DRV_P), VERIF_S=str(DRV_S),
-               VERIF_TABLES=str(10 if quick else 80), VERIF_OPS=str(20 if quick else 30))
+               VERIF_TABLES=str(10 if quick else 40), VERIF_OPS=str(20 if quick else 30))
     with Phase(run, "driver"):
         out, info = run_go(binp, "TestC25", env)
     fails = [l for l in out.splitlines() if l.startswith("DRIVER-FAIL")]
@@ -407,7 +417,7 @@ def run_c27(run):
     run.add_design("InternalIterGen exhaustive (oracle sanity: 4 user keys, seqnums 1..2, <=2 entries)", r)
     with Phase(run, "seeded_bugs"):
         run_bug_cfgs(run, SPECDIR, "InternalIterGen", ["UpperInclusive", "SeekLTInclusive"])
-    binp = vlib.build_driver("internal/verif/sstdrv")
+    binp = vlib.build_driver("internal/verif/sstdrv", name="internal_verif_sstdrv" + DRVSUFFIX)
     tdir = vlib.scratch("verif.sst27.")
     allf = list(range(3, 11))           # sstable.TableFormatPebblev1 .. Pebblev8
     if quick:
@@ -472,26 +482,26 @@ def run_c33(run):
     quick = run.tier == "quick"
     vlib.sany(SPECDIR, "MergeGen")
     vlib.sany(SPECDIR, "InternalIterTrace")
-    consts = dict(P=2, S=1, Bug="none", NL=2, MaxW=(2 if quick else 3), Kinds={1}, MaxOps=0, Emit=False)
+    consts = dict(P=2, S=1, Bug="none", NL=(2 if quick else 3), MaxW=2, Kinds={1}, MaxOps=0, Emit=False)
     with Phase(run, "design"):
         r = design_run(SPECDIR, "MergeGen", cfg_text(consts, invariants=["Inv"], view="View"), workers=WORKERS, timeout=2400, heap="10g")
-    run.add_design("MergeGen exhaustive (4 user keys, 2 levels, <=%d writes newest-first incl. shared seqnums: points and range tombstones, "
-                   "file split none/middle, every snapshot)" % consts["MaxW"], r)
+    run.add_design("MergeGen exhaustive (4 user keys, %d levels, <=%d writes newest-first incl. shared seqnums: points and range tombstones, "
+                   "file split none/third/middle per level, snapshots 2 and latest)" % (consts["NL"], consts["MaxW"]), r)
     with Phase(run, "seeded_bugs"):
         run_bug_cfgs(run, SPECDIR, "MergeGen", MG_BUGS)
         run_bug_cfgs(run, SPECDIR, "InternalIterGen", ["UpperInclusive", "SeekLTInclusive"])
-    binp = vlib.build_driver(".", name="root")
+    binp = vlib.build_driver(".", name="root" + DRVSUFFIX)
     tdir = vlib.scratch("verif.sst33.")
     sf = os.path.join(tdir, "scripts.jsonl")
     gc = dict(P=MG_P, S=MG_S, Bug="none", NL=3, MaxW=5, Kinds={0, 1, 2}, MaxOps=12, Emit=True)
     with Phase(run, "generate"):
         scripts = sim_scripts(run, SPECDIR, "MergeGen", "sim.cfg", cfg_text(gc, invariants=["EmitInv"]),
-                              walks=(60 if quick else 1200), depth=60, seed=run.seed, label="MergeGen/simulate")
+                              walks=(60 if quick else 600), depth=60, seed=run.seed, label="MergeGen/simulate")
     with open(sf, "w") as o:
         for sc in scripts:
             o.write(json.dumps(sc) + "\n")
     env = dict(VERIF_OUT=tdir, VERIF_SEED=str(run.seed), VERIF_TIER=run.tier, VERIF_SCRIPTFILE=sf, VERIF_GP=str(MG_P), VERIF_GS=str(MG_S),
-               VERIF_P=str(MD_P), VERIF_S=str(MD_S), VERIF_LAYOUTS=str(40 if quick else 500), VERIF_OPS=str(40 if quick else 60))
+               VERIF_P=str(MD_P), VERIF_S=str(MD_S), VERIF_LAYOUTS=str(40 if quick else 300), VERIF_OPS=str(40 if quick else 60))
     with Phase(run, "driver"):
         out, info = run_go(binp, "TestVSstC33", env)
     if "DRIVER-PANIC" in out:
@@ -536,6 +546,91 @@ def run_c33(run):
 
 
 # ---------------------------------------------------------------------------------------------
+# C29: virtual tables, transforms, CopySpan
+def corrupt_copyspan(l):
+    if '"op":"copyspan"' in l:
+        e = json.loads(l)
+        if len(e["out"]) >= 1 and e["out"][0][0] >= 0:
+            e["out"] = e["out"][1:] + [[e["out"][0][0], e["out"][0][1] + 7, 1, 1]]
+            return json.dumps(e)
+        return None
+    return corrupt_it(l)
+
+
+def run_c29(run):
+    quick = run.tier == "quick"
+    vlib.sany(SPECDIR, "VirtGen")
+    vlib.sany(SPECDIR, "InternalIterTrace")
+    consts = dict(P=2, S=2, Bug="none", MaxN=(2 if quick else 3), Seqs=2)
+    with Phase(run, "design"):
+        r = design_run(SPECDIR, "VirtGen", cfg_text(consts, invariants=["Inv"]), workers=WORKERS, timeout=2400, heap="8g")
+    run.add_design("VirtGen exhaustive (6 user keys, <=%d entries, every virtual bound pair incl. inclusive upper bounds, every synthetic "
+                   "suffix/seqnum permitted by the preconditions; CopySpan acceptance)" % consts["MaxN"], r)
+    with Phase(run, "seeded_bugs"):
+        run_bug_cfgs(run, SPECDIR, "VirtGen", ["Virt_SuffixNotApplied", "Virt_VirtLowerIgnored"])
+        run_bug_cfgs(run, SPECDIR, "InternalIterGen", ["LowerExclusive", "UpperInclusive"])
+    binp = vlib.build_driver("internal/verif/sstdrv", name="internal_verif_sstdrv" + DRVSUFFIX)
+    tdir = vlib.scratch("verif.sst29.")
+    sf = os.path.join(tdir, "scripts.jsonl")
+    gc = dict(P=DRV_P, S=DRV_S, Bug="none", MaxN=6, Seqs=3, Kinds={0, 1, 2, 18}, MaxOps=1, Emit=True)
+    with Phase(run, "generate"):
+        scripts = sim_scripts(run, SPECDIR, "InternalIterGen", "sim.cfg", cfg_text(gc, invariants=["EmitInv"]),
+                              walks=(40 if quick else 150), depth=30, seed=run.seed, label="InternalIterGen/simulate(tables)")
+    with open(sf, "w") as o:
+        for sc in scripts:
+            o.write(json.dumps(sc) + "\n")
+    env = dict(VERIF_OUT=tdir, VERIF_SEED=str(run.seed), VERIF_TIER=run.tier, VERIF_SCRIPTFILE=sf, VERIF_P=str(DRV_P), VERIF_S=str(DRV_S),
+               VERIF_TABLES=str(15 if quick else 60), VERIF_OPS=str(18 if quick else 30))
+    with Phase(run, "driver"):
+        out, info = run_go(binp, "TestC29", env)
+    files = sorted(glob.glob(os.path.join(tdir, "c29-*.ndjson")))
+    if not files:
+        raise vlib.Inconclusive("no traces produced")
+    cfgb = trace_cfg(DRV_P, DRV_S)
+    with Phase(run, "validate"):
+        ev, rej = validate_files(run, SPECDIR, "InternalIterTrace", "t.cfg", cfgb, files, {"it", "fit", "copyspan", "fail"}, "C29")
+    if rej == 0:
+        with Phase(run, "binding_demo"):
+            small = os.path.join(tdir, "demo.nd")
+            with open(small, "w") as o:
+                for i, l in enumerate(open(files[0])):
+                    if i < 2500:
+                        o.write(l)
+            binding_demo(run, SPECDIR, "InternalIterTrace", "t.cfg", cfgb, [small], corrupt_copyspan, droppable_it)
+    evals, distinct = seg_stats(files, opnames=("it", "fit", "copyspan"))
+    nv = dict(n=0, bounded=0, incl=0, ssuf=0, sseq=0)
+    for f in files:
+        for l in open(f):
+            if '"op":"virt"' in l:
+                e = json.loads(l)
+                nv["n"] += 1
+                nv["bounded"] += int(e["vlo"] > 0 or e["vhi"] < DRV_P * (DRV_S + 1))
+                nv["incl"] += int(e["vhiincl"])
+                nv["ssuf"] += int(e["ssuf"] > 0)
+                nv["sseq"] += int(e["sseq"] > 0)
+    run.cov["evaluations"] = evals
+    run.cov["distinct_nontrivial"] = distinct
+    run.cov["rule"] = ("evaluations = iterator results and CopySpan outputs decided by TLC; a case = one (table, virtual/transform parameters, writer "
+                       "configuration); non-trivial and distinct as in C25")
+    run.cov["virt_params"] = nv
+    run.cov["driver"] = info
+    run.cov["trace_events"] = ev
+    run.sample({"trace": os.path.basename(files[0]), "first_events": [json.loads(l) for l in list(open(files[0]))[:5]]})
+    run.assumptions += [
+        "documented preconditions are the generator's enabling conditions: synthetic suffix only on tables with one suffixed key per prefix, no range "
+        "deletions, only RangeKeySets, and a suffix that sorts before every existing one; synthetic seqnum only on tables with one version per user "
+        "key; no synthetic prefix on tables with range keys; an inclusive virtual upper bound is not contained in any span",
+        "the caller's iterator bounds overlap the virtual table and a seek key does not lie beyond the table's bounds in the direction of the seek "
+        "(what levelIter guarantees; ConstrainBounds documents the assumption); seeks before the virtual lower bound / after the upper bound in the "
+        "clamped direction are exercised",
+        "a synthetic prefix is a monotone bijection of user keys: identity on ranks; the driver prepends it to every key it passes and strips and "
+        "verifies it on every key it gets back",
+        "CopySpan is run on the physical table (it is not transform-aware); accepted outputs: any subsequence of the input containing the whole span",
+        "virtual tables through Excise at DB level are the KV engine's C36",
+    ]
+
+
+# ---------------------------------------------------------------------------------------------
 C_NOTE = ("Trusted: TLC; InternalIter.tla as the statement of intended behaviour; the Go driver's rank<->bytes and value id<->bytes "
           "mappings and its recording of results. Bounded: small key universes, tables of <= 24 entries, the enumerated option matrix.")
 C_TECH = "TLA+ list model (InternalIter.tla) + TLC-generated and driver-enumerated inputs run on the real code + TLC trace validation of every result"
@@ -571,4 +666,13 @@ def REGISTER(reg):
         C_NOTE, C_TECH, "DESIGN 6/C33", engine="sst")
 
 
-SPEC_MODULES = [("InternalIter", "MergeGen"), ("InternalIter", "InternalIterGen"), ("InternalIter", "InternalIterTrace")]
+    reg("C29", "Virtual tables, transforms and span copies present the right keys", run_c29,
+        "Tables (from TLC simulation and a seeded driver) are written with the real writer under a spread of formats/options and read through "
+        "real virtual readers (ReadEnv.Virtual with exclusive and inclusive upper bounds), synthetic prefix, suffix and sequence number "
+        "(IterTransforms / FragmentIterTransforms), for points, range deletions and range keys; CopySpan outputs are read back. TLC decides every "
+        "result against Virtual(list, bounds, suffix, seqnum) = filter/map of the list model and CopySpanOK; the properties of Virtual and the "
+        "CopySpan acceptance predicate are checked exhaustively in a small scope with seeded-bug self tests.",
+        C_NOTE, C_TECH, "DESIGN 6/C29", engine="sst")
+
+
+SPEC_MODULES = [("InternalIter", "VirtGen"), ("InternalIter", "MergeGen"), ("InternalIter", "InternalIterGen"), ("InternalIter", "InternalIterTrace")]
